@@ -334,6 +334,65 @@ def r7_5(ctx, R, mus):
     ctx.floor("R7.5", "ready-constructions", n, 2)
 
 
+def _contains(e, x):
+    """x occurs as a sub-expression of e (through projections, references, casts -- e.g. the lowered deref of a Box)"""
+    if e == x:
+        return True
+    if not isinstance(e, tuple):
+        return False
+    k = e[0]
+    if k in ("proj", "ref", "discr"):
+        return _contains(e[1], x)
+    if k == "cast":
+        return _contains(e[2], x)
+    return False
+
+
+def r7_6(ctx, R):
+    ctx.rule("R7.6", "full at construction: the slot map's FromIterator builds its storage as collect(.. map(Occupied)) -- every "
+                     "element an occupied slot, nothing reserved -- and sets the occupied counter to the length of that same "
+                     "storage, so capacity() == number of inputs and Ready(None) from the drain means every output slot of "
+                     "the equally long buffer was written")
+    sm, slots_field = R.slot_enum[1], R.slot_enum[2]
+    occ, free = R.slot_variants
+    from lib_flow import self_field_stores, is_inc_of
+    counter = None
+    ins = R.insert_fn
+    for (bb, i, fld, val, root, pe) in self_field_stores(ins, ctx.flow(ins)):
+        if is_inc_of(val, fld) == 1:
+            counter = fld
+    n = 0
+    for b in ctx.facts.fn_bodies():
+        if not re.search(r"^<%s<.*> as core::iter::FromIterator<" % re.escape(sm), b.path) or b.kind == "Closure":
+            continue
+        for rb, e in returned_exprs(ctx, b):
+            if not (e[0] == "agg" and e[1].startswith(sm + "::")):
+                continue
+            n += 1
+            ops = dict(zip(e[3], e[2]))
+            sl = ops.get(slots_field)
+            cnt = ops.get(counter[1:]) if counter else None
+            # the storage value: strip conversions (into / into_boxed_slice / Pin::from / Box::into_pin)
+            x = sl
+            while x is not None and x[0] == "call" and re.search(r"::(into|into_boxed_slice|from|into_pin|new_unchecked)$", x[1] or "") and x[2]:
+                x = x[2][0]
+            full = False
+            det = "storage %s" % (expr_str(x) if x else None)
+            if x is not None and x[0] == "call" and (x[1] or "").endswith("::collect") and x[2]:
+                it = x[2][0]
+                if it[0] == "call" and (it[1] or "").endswith("::map") and len(it[2]) == 2:
+                    mf = it[2][1]
+                    full = mf[0] == "fn" and mf[1].endswith("::" + occ)
+            same = False
+            if cnt is not None:
+                c_ = cnt
+                if c_[0] == "call" and (c_[1] or "").endswith("::len") and c_[2]:
+                    same = _contains(c_[2][0], x) or _contains(c_[2][0], sl)
+            ctx.ob("R7.6", b, "from_iter-builds-a-full-map", full and same, b.loc(rb),
+                   "%s; all elements Occupied: %s; counter = len(storage): %s (%s)" % (det, full, same, expr_str(cnt) if cnt else None))
+    ctx.floor("R7.6", "slot-map FromIterator", n, 1)
+
+
 def run(ctx):
     R = roles(ctx)
     R.pop_fn, R.drain_fn, R.insert_fn, R.remove_fn
@@ -350,3 +409,4 @@ def run(ctx):
     r7_3(ctx, R, mus)
     r7_4(ctx, R, mus)
     r7_5(ctx, R, mus)
+    r7_6(ctx, R)
